@@ -1138,3 +1138,8 @@ pub fn slot_for(kind: Kind) -> Box<dyn SlotOps> {
 /// Touches `EntitiesRes` so that the import is used even when only some ops are compiled.
 #[allow(dead_code)]
 fn _uses(_: &EntitiesRes) {}
+
+// auxiliary member types for joinsim (never used as worldsim slots)
+val_comp!(XDense, Plain, Dense, DenseVecStorage<Self>, DenseSlice, NoTrack, YesShared);
+val_comp!(XFHash, Flagged, Hash, FlaggedStorage<Self, HashMapStorage<Self>>, NoSlice, YesTrack, YesShared);
+val_comp!(XBTree, Plain, BTree, BTreeStorage<Self>, NoSlice, NoTrack, YesShared);
